@@ -114,6 +114,7 @@ func c01(w *core.World, r *core.Report) {
 	if low == nil || expand == nil {
 		return
 	}
+	ruleNoSplitOfJoin(w, r)
 
 	// ---- PRIO-FLOW
 	r.Rule("PRIO-FLOW", 2, "value flow (field-based, interprocedural): the priority of the request's intent (sdcpb.TransactionIntent.GetPriority in SdcpbTransactionIntentToInternalTI) reaches Opts.Priority of the per-intent Modify(INTENDED) in lowlevelTransactionSet and the priority argument of cache.NewUpdate in expandAndConvertIntent. Absence of a flow is definite: the stored precedence could not depend on the request.")
